@@ -212,7 +212,7 @@ def extra(chk, info, res):
 
 def run(chk):
     ac.run_actor_property(chk, MODULE, THEOREMS, monitor_pids=["C16"], extra=extra)
-    ac.dispatch_facts(chk, ['C14_fact_methods', 'C14_fact_heating_setpoint', 'C14_fact_heating_min_temp', 'C14_fact_heating_start_hour'])
+    ac.dispatch_facts(chk, ['C14_fact_routing', 'C14_fact_heating_setpoint', 'C14_fact_heating_min_temp', 'C14_fact_heating_start_hour'])
     from checks import altcfg as _alt
     _alt.binding(chk, ['heating'])
     # the thermostat decides on the TemperatureReader's windows: refinement theorems + differential of the REAL BaseReader
